@@ -40,7 +40,7 @@ CHECKS = {
          "Strict-build field sweeps through text and bytes; generator side on all recorded finalisations.", "6 C15"),
  "C16": (MC, "Serde.tla (SerOf / DeAllows / format framing) judged by TLC on recorded serde events: real formats (serde_json, ciborium, postcard) and a scripted mock (de)serializer answering with every visitor event (TraceHash.tla)",
          "Every recorded (human-readable?, visitor event, payload) combination in three feature sets; acceptance iff the matching parser accepts; no panic.", "6 C16"),
- "C17": ("exploration", "monitored executions judged by the TLA+ trace specifications (TraceHash / TraceGen / TraceStream): every event of every family in checked (debug-assertions + overflow-checks), 'unsafe'-feature and plain release builds must be a normal return the specification allows or a documented panic; adversarial Read impls (over-claiming, lying) incl. every reader script of MCStreamReplay in unsafe / release / opt-level-0 builds; AddressSanitizer execution mode in the thorough tier",
+ "C17": ("exploration", "monitored executions judged by the TLA+ trace specifications (TraceHash / TraceGen / TraceStream): every event of every family in checked (debug-assertions + overflow-checks), 'unsafe'-feature and plain release builds must be a normal return the specification allows or a documented panic; adversarial Read impls (over-claiming, lying) incl. every reader script of MCStreamReplay in unsafe / release / opt-level-0 builds; ThreadSanitizer execution mode of the thread families (instrumented std) in both tiers, AddressSanitizer execution mode in the thorough tier",
          "Totality and the truth of every invariant!() over the recorded corpus in every configuration; memory safety only as far as it surfaces behaviourally (panic, crash, changed result) - reduced level, see DESIGN.md section 7.", "6 C17"),
  "C18": (MC, "Alloc.tla allocation budget per action judged by TLC on recorded events carrying the allocator-call count of a counting global allocator, in five (thorough: eleven) configurations incl. the library built with neither std nor alloc",
          "Budget 0 for every core action on every recorded event; the no-std/no-alloc build is a precondition of its trace.", "6 C18"),
